@@ -1,1 +1,5 @@
-/-! Property theorems for C05 — placeholder until the property's model is built. -/
+import FcpptModel.Spec.C05
+import FcpptModel.Model.C05
+/-! Property theorems for C05 — under construction. -/
+namespace Fcppt.C05
+end Fcppt.C05
